@@ -186,6 +186,19 @@ def install():
         if rec is not None and rec.enabled:
             rec.rollback(session)
 
+    @event.listens_for(Session, 'after_transaction_end')
+    def after_transaction_end(session, transaction):
+        # A session that is closed with flushed but uncommitted changes
+        # (end_tx() after an exception) fires neither after_commit nor
+        # after_rollback. Its events must not stay pending: they are kept
+        # under id(session), and a later session object may get the same
+        # id and would "commit" them. (after_commit has already taken the
+        # events of a committed transaction when this fires.)
+        rec = _REC
+        if rec is not None and rec.enabled and \
+                getattr(transaction, 'parent', None) is None:
+            rec.rollback(session)
+
     @event.listens_for(Session, 'after_soft_rollback')
     def after_soft_rollback(session, previous_transaction):
         rec = _REC
